@@ -22,6 +22,7 @@ import (
 	"github.com/btcsuite/btcd/btcec/v2"
 	"github.com/btcsuite/btcd/btcutil/base58"
 	"github.com/btcsuite/btcd/btcutil/bech32"
+	"github.com/btcsuite/btcd/chaincfg/chainhash"
 	"github.com/btcsuite/btcd/txscript"
 	"github.com/btcsuite/btcd/wire"
 	"github.com/vulpemventures/go-elements/address"
@@ -590,6 +591,35 @@ func followTx(tx *transaction.Transaction) {
 		tx.HashForSignature(i, []byte{0x51}, txscript.SigHashAll)
 		tx.HashForWitnessV0(i, []byte{0x51}, []byte{1, 0, 0, 0, 0, 0, 0, 0, 1}, txscript.SigHashSingle)
 	}
+	// every base type with every modifier bit, on the first and last few inputs (an input index at or beyond the
+	// number of outputs is where SINGLE has its special case)
+	n := len(tx.Inputs)
+	var scripts, assets, values [][]byte
+	if n <= 64 {
+		for range tx.Inputs {
+			scripts = append(scripts, []byte{0x51})
+			assets = append(assets, append([]byte{1}, make([]byte, 32)...))
+			values = append(values, []byte{1, 0, 0, 0, 0, 0, 0, 0, 1})
+		}
+	}
+	var genesis chainhash.Hash
+	for i := 0; i < n; i++ {
+		if i >= 4 && i < n-4 {
+			continue
+		}
+		for _, base := range []byte{0, 1, 2, 3} {
+			for _, mod := range []byte{0, 0x80, 0x40, 0xc0} {
+				ht := txscript.SigHashType(base | mod)
+				if base != 0 {
+					tx.HashForSignature(i, []byte{0x51}, ht)
+					tx.HashForWitnessV0(i, []byte{0x51}, []byte{1, 0, 0, 0, 0, 0, 0, 0, 1}, ht)
+				}
+				if scripts != nil && mod != 0x40 && mod != 0xc0 && !(base == 0 && mod != 0) {
+					tx.HashForWitnessV1(i, scripts, assets, values, ht, &genesis, nil, nil)
+				}
+			}
+		}
+	}
 }
 
 func guarded(f func()) (p interface{}) {
@@ -1076,6 +1106,8 @@ func genDecSysCases(r *Rng, n int, w *bufio.Writer) {
 			}
 		}
 	}
+	// (d) signed packets whose scripts are every prefix of every standard template (decshape.go)
+	genDecShapeCases(w)
 }
 
 // offsets at which the maps of a PSET start (after the magic, and after every separator)
